@@ -369,8 +369,13 @@ func (s *stream) sendEvents() {
 			return
 		}
 		for _, v := range events {
-			err := s.client.Send(v)
+			err = s.client.Send(v)
 			if err != nil {
+				if err == io.EOF {
+					// gRPC reports a broken stream to Send as io.EOF (the reason goes to Recv). It is an
+					// error all the same: reported as nil or io.EOF the peer would never reconnect.
+					err = errors.New("event stream broken")
+				}
 				return
 			}
 			if ce := log.Check(zapcore.DebugLevel, "event sent"); ce != nil {
